@@ -129,6 +129,18 @@ class C03(Check):
             man = dict(n=len(ents), offset=None, comment=None, entries=[
                 dict(name=zi.filename.encode().hex(), content=c.hex(), crc=binascii.crc32(c) & 0xffffffff, usize=len(c)) for zi, c in ents], light=True)
             add_archive(data, man, "zipfile")
+        # exactly 65,535 entries without ZIP64 records (CPython writes those only above that count): the 16-bit count is the
+        # real value, not an escape.  Implementation only (the list-based model is quadratic in the entry count).
+        for cnt, pre, com in ((65535, b"", b""), (65534, b"", b""), (65535, b"prepended junk", b"with a comment")):
+            bio = io.BytesIO()
+            bio.write(pre)
+            with zipfile.ZipFile(bio, "a" if pre else "w") as zf:
+                zf.comment = com
+                for i in range(cnt):
+                    zf.writestr(zipfile.ZipInfo("n%d" % i), b"")
+            data = bio.getvalue()
+            cases.append(("open " + hexs(data), dict(k="open-count", n=cnt, comment=com.hex(), impl_only=True)))
+            cases.append(("byname %s %s" % (hexs(data), hexs(b"n%d" % (cnt - 1))), dict(k="byname-count", impl_only=True)))
         # Info-ZIP
         d = os.path.join(CACHE, "c03_infozip")
         os.makedirs(d, exist_ok=True)
@@ -153,8 +165,17 @@ class C03(Check):
     def oracle(self, line, meta, out):
         if out is None or "PANIC" in out or out.startswith("ABORT") or out == "TIMEOUT":
             return "implementation did not return: %s" % (out or "")[:120]
-        man = meta["man"]
         k = meta["k"]
+        if k == "open-count":
+            m = re.match(r"\[Ok \[(\d+) x([0-9a-f]*) (\d+) ", out)
+            if not m:
+                return "well-formed archive with %d entries and no ZIP64 records rejected: %s" % (meta["n"], out[:120])
+            if int(m.group(3)) != meta["n"] or m.group(2) != meta["comment"]:
+                return "entry count / comment %s %s, producer wrote %d %s" % (m.group(3), m.group(2), meta["n"], meta["comment"])
+            return None
+        if k == "byname-count":
+            return None if out.startswith("[Ok") else "last entry of a 65,535-entry archive not found by name: " + out[:100]
+        man = meta["man"]
         if k == "open":
             m = re.match(r"\[Ok \[(\d+) x([0-9a-f]*) (\d+) ", out)
             if not m:
@@ -223,6 +244,6 @@ class C03(Check):
         return None
 
     def nontrivial(self, line, meta, out):
-        return meta["man"]["n"] >= 1
+        return "man" not in meta or meta["man"]["n"] >= 1
 
 CHECK = C03
